@@ -403,8 +403,12 @@ def _prevalence_threshold(cm: _ConfusionMatrix) -> types.NumbersT:
 def _matthews_correlation_coefficient(cm: _ConfusionMatrix) -> types.NumbersT:
   """Matthews corrrelation coefficient (MCC)."""
   numerator = cm.tp * cm.tn - cm.fp * cm.fn
+  # The product of four counts overflows int64 from ~55k examples per cell on.
   denominator = math_utils.pos_sqrt(
-      (cm.tp + cm.fp) * (cm.tp + cm.fn) * (cm.tn + cm.fp) * (cm.tn + cm.fn)
+      np.asarray(cm.tp + cm.fp, dtype=types.DefaultDType)
+      * (cm.tp + cm.fn)
+      * (cm.tn + cm.fp)
+      * (cm.tn + cm.fn)
   )
   return math_utils.safe_divide(numerator, denominator)
 
